@@ -479,6 +479,7 @@ def main():
             "theorems": thms, "theorems_discharged": disch,
             "correspondence": {"name": f"corr:{pid}/" + getattr(mod, "CORR_NAME", "model-vs-code"),
                                "cases": len(cases), "corpus_cases": len(corpus), "disagreements": len(disagreements)},
+            "programs": len(cases), "disagreements_checked": len(disagreements),
             "evaluations": len(cases), "distinct_nontrivial": len(nontrivial),
             "rule": getattr(mod, "RULE", ""), "samples": samples, "distribution": tags,
             "oracle_checked": n_run if run_oracle else 0,
